@@ -323,6 +323,9 @@ Section PrunedUnfuse.
     rewrite Nat.sub_diag. cbn [firstn]. now rewrite app_nil_r.
   Qed.
 
+  Lemma pruned_unfuse_data K' T' : In (K', T') (blocks G R PY') -> length (tdata T') = shape_size (tshape T').
+  Proof. exact (GUB_data G R Y ax subs pext P_len P_nd P_elen IXr HY_shape P_sz K' T'). Qed.
+
   (* a recorded sub-sector: the unfused coordinates read the fused coordinate *)
   Theorem pruned_unfuse_sem s' cL csub cR :
     In s' secs -> length cL = ax -> map fst csub = sub s' g ->
